@@ -97,7 +97,8 @@ def eval_case(case):
             fails.append(['data-sent-on-rate-check-connection', 'conn %d got %d bytes' % (c.idx, c.bytes_from_client)])
             break
     # concurrency of rate sockets: replay open/close order from the socket records is not available; use the peak counter
-    if not skip and net.max_open > RATE_CONCURRENT + 2:
+    # (sockets whose connection was refused are only dropped, not closed, and live until the next select: up to 3 old + 3 new)
+    if not skip and net.max_open > 2 * RATE_CONCURRENT + 2:
         fails.append(['too-many-sockets-open-at-once', 'peak %d' % net.max_open])
     # key-exchange computation requests only in probes, one per connection
     for c in peer.conns:
@@ -128,7 +129,7 @@ HOSTKEYS = {'ssh-ed25519': {'t': 'ed25519'}, 'ssh-rsa': {'t': 'rsa', 'bits': 204
             'ssh-rsa-cert-v01@openssh.com': {'t': 'cert', 'kind': 'ssh-rsa-cert-v01@openssh.com', 'bits': 3072, 'ca': {'t': 'rsa', 'bits': 4096}}}
 FAULTS = ['close', 'stall', 'reset', ['trunc', 7, 'close'], ['trunc', 7, 'stall'], ['type', 99], ['reframe_trunc', 3], ['set_len', 0x1234], ['dup'], ['debug', 3], ['payload', '\x1f\x00\x00\x00\x00']]
 WHATS = ['connect', 'banner', 'kexinit', 'kexdh_reply', 'gex_group', 'gex_reply']
-RATES = ['normal', 'normal', 'close', 'stall', 'greet:Exceeded MaxStartups\r\n', 'greet:HTTP/1.1 400 Bad Request\r\n\r\n', 'greet:SSH', 'greet:\x00\x00\x00\x00']
+RATES = ['normal', 'normal', 'close', 'stall', 'reset', 'refuse', 'greet:Exceeded MaxStartups\r\n', 'greet:HTTP/1.1 400 Bad Request\r\n\r\n', 'greet:SSH', 'greet:\x00\x00\x00\x00']
 
 
 def strat_case():
